@@ -43,6 +43,9 @@ lib/ULib.vos lib/ULib.vok lib/ULib.required_vos: lib/ULib.v lib/Lib.vos
 model/Ctor.vo model/Ctor.glob model/Ctor.v.beautified model/Ctor.required_vo: model/Ctor.v 
 model/Ctor.vio: model/Ctor.v 
 model/Ctor.vos model/Ctor.vok model/Ctor.required_vos: model/Ctor.v 
+model/Layout.vo model/Layout.glob model/Layout.v.beautified model/Layout.required_vo: model/Layout.v 
+model/Layout.vio: model/Layout.v 
+model/Layout.vos model/Layout.vok model/Layout.required_vos: model/Layout.v 
 model/ObjChecks.vo model/ObjChecks.glob model/ObjChecks.v.beautified model/ObjChecks.required_vo: model/ObjChecks.v model/ObjModel.vo gen/ObjNames.vo gen/ObjApi.vo
 model/ObjChecks.vio: model/ObjChecks.v model/ObjModel.vio gen/ObjNames.vio gen/ObjApi.vio
 model/ObjChecks.vos model/ObjChecks.vok model/ObjChecks.required_vos: model/ObjChecks.v model/ObjModel.vos gen/ObjNames.vos gen/ObjApi.vos
@@ -91,6 +94,9 @@ proofs/C13_range.vos proofs/C13_range.vok proofs/C13_range.required_vos: proofs/
 proofs/C13_sign.vo proofs/C13_sign.glob proofs/C13_sign.v.beautified proofs/C13_sign.required_vo: proofs/C13_sign.v lib/Lib.vo lib/RLib.vo lib/Trig.vo gen/Compute.vo gen/Tables.vo gen/Unfold.vo proofs/C13_range.vo
 proofs/C13_sign.vio: proofs/C13_sign.v lib/Lib.vio lib/RLib.vio lib/Trig.vio gen/Compute.vio gen/Tables.vio gen/Unfold.vio proofs/C13_range.vio
 proofs/C13_sign.vos proofs/C13_sign.vok proofs/C13_sign.required_vos: proofs/C13_sign.v lib/Lib.vos lib/RLib.vos lib/Trig.vos gen/Compute.vos gen/Tables.vos gen/Unfold.vos proofs/C13_range.vos
+proofs/C17_reduce.vo proofs/C17_reduce.glob proofs/C17_reduce.v.beautified proofs/C17_reduce.required_vo: proofs/C17_reduce.v lib/Lib.vo lib/RLib.vo lib/Trig.vo lib/Conv.vo lib/Spec.vo gen/Compute.vo gen/Tables.vo gen/Unfold.vo proofs/Spec_planar.vo proofs/Spec_spatial1.vo proofs/Spec_spatial2.vo proofs/Spec_lorentz.vo model/Layout.vo
+proofs/C17_reduce.vio: proofs/C17_reduce.v lib/Lib.vio lib/RLib.vio lib/Trig.vio lib/Conv.vio lib/Spec.vio gen/Compute.vio gen/Tables.vio gen/Unfold.vio proofs/Spec_planar.vio proofs/Spec_spatial1.vio proofs/Spec_spatial2.vio proofs/Spec_lorentz.vio model/Layout.vio
+proofs/C17_reduce.vos proofs/C17_reduce.vok proofs/C17_reduce.required_vos: proofs/C17_reduce.v lib/Lib.vos lib/RLib.vos lib/Trig.vos lib/Conv.vos lib/Spec.vos gen/Compute.vos gen/Tables.vos gen/Unfold.vos proofs/Spec_planar.vos proofs/Spec_spatial1.vos proofs/Spec_spatial2.vos proofs/Spec_lorentz.vos model/Layout.vos
 proofs/Spec_lorentz.vo proofs/Spec_lorentz.glob proofs/Spec_lorentz.v.beautified proofs/Spec_lorentz.required_vo: proofs/Spec_lorentz.v lib/Lib.vo lib/RLib.vo lib/Trig.vo lib/Conv.vo lib/Spec.vo gen/Compute.vo gen/Tables.vo gen/Unfold.vo proofs/Spec_planar.vo proofs/Spec_spatial1.vo proofs/Spec_spatial2.vo
 proofs/Spec_lorentz.vio: proofs/Spec_lorentz.v lib/Lib.vio lib/RLib.vio lib/Trig.vio lib/Conv.vio lib/Spec.vio gen/Compute.vio gen/Tables.vio gen/Unfold.vio proofs/Spec_planar.vio proofs/Spec_spatial1.vio proofs/Spec_spatial2.vio
 proofs/Spec_lorentz.vos proofs/Spec_lorentz.vok proofs/Spec_lorentz.required_vos: proofs/Spec_lorentz.v lib/Lib.vos lib/RLib.vos lib/Trig.vos lib/Conv.vos lib/Spec.vos gen/Compute.vos gen/Tables.vos gen/Unfold.vos proofs/Spec_planar.vos proofs/Spec_spatial1.vos proofs/Spec_spatial2.vos
@@ -136,3 +142,6 @@ props/C14.vos props/C14.vok props/C14.required_vos: props/C14.v model/ObjModel.v
 props/C15.vo props/C15.glob props/C15.v.beautified props/C15.required_vo: props/C15.v model/ObjModel.vo gen/ObjNames.vo gen/ObjApi.vo gen/ObjApiBin.vo model/ObjChecks.vo model/ObjChecksBin.vo model/ObjHistory.vo
 props/C15.vio: props/C15.v model/ObjModel.vio gen/ObjNames.vio gen/ObjApi.vio gen/ObjApiBin.vio model/ObjChecks.vio model/ObjChecksBin.vio model/ObjHistory.vio
 props/C15.vos props/C15.vok props/C15.required_vos: props/C15.v model/ObjModel.vos gen/ObjNames.vos gen/ObjApi.vos gen/ObjApiBin.vos model/ObjChecks.vos model/ObjChecksBin.vos model/ObjHistory.vos
+props/C17.vo props/C17.glob props/C17.v.beautified props/C17.required_vo: props/C17.v lib/Lib.vo lib/RLib.vo lib/Spec.vo gen/Compute.vo gen/Tables.vo proofs/Spec_lorentz.vo model/Layout.vo proofs/C17_reduce.vo
+props/C17.vio: props/C17.v lib/Lib.vio lib/RLib.vio lib/Spec.vio gen/Compute.vio gen/Tables.vio proofs/Spec_lorentz.vio model/Layout.vio proofs/C17_reduce.vio
+props/C17.vos props/C17.vok props/C17.required_vos: props/C17.v lib/Lib.vos lib/RLib.vos lib/Spec.vos gen/Compute.vos gen/Tables.vos proofs/Spec_lorentz.vos model/Layout.vos proofs/C17_reduce.vos
